@@ -39,7 +39,7 @@ COMPONENTS = {
     "real": ["_evaluator_results.py (contexts, labels, transforms, splitting)", "EnsembleEvaluator", "results.* (_immutable_copy)", "filters", "VariableScaler"],
     "stub": ["SimEvaluator in hostile modes", "sim/scripted optimizer", "objective/constraint scalers"],
 }
-PROBES = ["inactive_realization_seen", "buffer_reused", "calls_checked", "inactive_entry_seen", "garbage_entries", "memo_hits", "readonly_arrays", "split_gradient_call",
+PROBES = ["negative_realization_weight", "inactive_realization_seen", "buffer_reused", "calls_checked", "inactive_entry_seen", "garbage_entries", "memo_hits", "readonly_arrays", "split_gradient_call",
           "values_checked", "twin_compared", "results_immutability_checked", "transform_with_memo", "nan_rows", "batch_call",
           "zero_weight_from_filter"]
 
@@ -69,6 +69,15 @@ def generate(seed: int, index: int, tier: str) -> dict:
         gen.add_nan_faults(rng, scn, rate=1.0, max_faults=3)
     scn["twin_garbage"] = rng.getrandbits(24)
     scn["stratum"] = "+".join(sorted(mode)) or "plain"
+    w = cfg["realizations"]["weights"]
+    has_sd = any(e["method"].endswith("stddev") for e in cfg.get("function_estimators", []))
+    if len(w) >= 2 and not cfg.get("realization_filters") and not has_sd and rng.random() < 0.3:
+        # a negative realization weight (legal as long as the sum is positive) is a non-zero weight like any other
+        i = rng.randrange(len(w))
+        rest = sum(v for k, v in enumerate(w) if k != i)
+        if rest > 0.2:
+            w[i] = -round(rng.uniform(0.1, 0.5) * rest, 3)
+            scn["negative_realization_weight"] = True
     return scn
 
 
@@ -140,6 +149,8 @@ def execute(scn: dict) -> dict:
     if ev.alias_errors:
         viol.append({"clause": "evaluator-result-modified", "sig": {"what": ev.alias_errors[0].split(": ", 1)[1].split(" of call")[0]},
                      "detail": f"mode {mode}, transforms {scn.get('transforms')}: " + "; ".join(ev.alias_errors[:3])})
+    if scn.get("negative_realization_weight"):
+        probe("negative_realization_weight")
     first_by_request: dict[bytes, list] = {}
     for ln in oracles.linked_results(ctx):
         cfg = ln.cfg
